@@ -204,3 +204,99 @@ package hclsyntax
 //@ trusted
 //@ pure
 //@ ensures clean(ret)
+
+// ---- walk completeness (unit U16, C07) ----
+// verif:unit U16 props=C07
+//
+// Variables() and the dynblock/hcldec variable walkers find references by walking the tree with
+// walkChildNodes. The ghost set 'walked' collects every node handed to the walk callback; 'scoped'
+// collects the expressions handed over wrapped in a ChildScope, and 'lastScope' is the name set of
+// the most recent ChildScope. Each node type must hand every child expression to the callback
+// (a child that is skipped makes its variable references invisible), and a for expression must
+// hand its key/value/condition expressions over inside a scope that binds its iterator names.
+// Assumed: the callback does not modify the tree being walked.
+// verif:ghostvar walked ifaceset
+// verif:ghostvar scoped ifaceset
+// verif:ghostvar lastScope strsetmap
+// (the callback type has an unnamed parameter: arg1 is the node handed over)
+// verif:func (internalWalkFunc).call
+//@ trusted
+//@ assigns walked, scoped, lastScope
+//@ ensures in(arg1, walked) && (forall m iface :: { in(m, walked) } in(m, old(walked)) ==> in(m, walked))
+//@ ensures (forall m iface :: { in(m, scoped) } in(m, old(scoped)) ==> in(m, scoped))
+//@ ensures typeis(arg1, ChildScope) ==> in(unbox(arg1, ChildScope).Expr, scoped) && lastScope == unbox(arg1, ChildScope).LocalNames
+//@ ensures !typeis(arg1, ChildScope) ==> lastScope == old(lastScope)
+
+// verif:func (*ParenthesesExpr).walkChildNodes
+//@ assigns walked, scoped, lastScope
+//@ ensures in(e.Expression, walked)
+// verif:func (*RelativeTraversalExpr).walkChildNodes
+//@ assigns walked, scoped, lastScope
+//@ ensures in(e.Source, walked)
+// verif:func (*FunctionCallExpr).walkChildNodes
+//@ assigns walked, scoped, lastScope
+//@ ensures forall j int :: { e.Args[j] } 0 <= j && j < len(e.Args) ==> in(e.Args[j], walked)
+//@ loop 1 invariant forall j int :: { e.Args[j] } 0 <= j && j <= rangeindex ==> in(e.Args[j], walked)
+// verif:func (*ConditionalExpr).walkChildNodes
+//@ assigns walked, scoped, lastScope
+//@ ensures in(e.Condition, walked) && in(e.TrueResult, walked) && in(e.FalseResult, walked)
+// verif:func (*IndexExpr).walkChildNodes
+//@ assigns walked, scoped, lastScope
+//@ ensures in(e.Collection, walked) && in(e.Key, walked)
+// verif:func (*TupleConsExpr).walkChildNodes
+//@ assigns walked, scoped, lastScope
+//@ ensures forall j int :: { e.Exprs[j] } 0 <= j && j < len(e.Exprs) ==> in(e.Exprs[j], walked)
+//@ loop 1 invariant forall j int :: { e.Exprs[j] } 0 <= j && j <= rangeindex ==> in(e.Exprs[j], walked)
+// verif:func (*ObjectConsExpr).walkChildNodes
+//@ assigns walked, scoped, lastScope
+//@ ensures forall j int :: { e.Items[j] } 0 <= j && j < len(e.Items) ==> in(e.Items[j].KeyExpr, walked) && in(e.Items[j].ValueExpr, walked)
+//@ loop 1 invariant forall j int :: { e.Items[j] } 0 <= j && j <= rangeindex ==> in(e.Items[j].KeyExpr, walked) && in(e.Items[j].ValueExpr, walked)
+// verif:func (*SplatExpr).walkChildNodes
+//@ assigns walked, scoped, lastScope
+//@ ensures in(e.Source, walked) && in(e.Each, walked)
+// verif:func (*BinaryOpExpr).walkChildNodes
+//@ assigns walked, scoped, lastScope
+//@ ensures in(e.LHS, walked) && in(e.RHS, walked)
+// verif:func (*UnaryOpExpr).walkChildNodes
+//@ assigns walked, scoped, lastScope
+//@ ensures in(e.Val, walked)
+// verif:func (*TemplateExpr).walkChildNodes
+//@ assigns walked, scoped, lastScope
+//@ ensures forall j int :: { e.Parts[j] } 0 <= j && j < len(e.Parts) ==> in(e.Parts[j], walked)
+//@ loop 1 invariant forall j int :: { e.Parts[j] } 0 <= j && j <= rangeindex ==> in(e.Parts[j], walked)
+// verif:func (*TemplateJoinExpr).walkChildNodes
+//@ assigns walked, scoped, lastScope
+//@ ensures in(e.Tuple, walked)
+// verif:func (*TemplateWrapExpr).walkChildNodes
+//@ assigns walked, scoped, lastScope
+//@ ensures in(e.Wrapped, walked)
+// verif:func (*Attribute).walkChildNodes
+//@ assigns walked, scoped, lastScope
+//@ ensures in(a.Expr, walked)
+// verif:func (ChildScope).walkChildNodes
+//@ assigns walked, scoped, lastScope
+//@ ensures in(e.Expr, walked)
+// The for expression: the collection is evaluated in the enclosing scope, everything else in a
+// child scope that binds the key and value iterator names.
+// verif:func (*ForExpr).walkChildNodes
+//@ assigns walked, scoped, lastScope
+//@ ensures coll: in(e.CollExpr, walked)
+//@ ensures val: in(e.ValExpr, scoped)
+//@ ensures key: e.KeyExpr != nil ==> in(e.KeyExpr, scoped)
+//@ ensures cond: e.CondExpr != nil ==> in(e.CondExpr, scoped)
+//@ ensures names: lastScope != nil && (e.KeyVar != "" ==> has(lastScope, e.KeyVar)) && (e.ValVar != "" ==> has(lastScope, e.ValVar))
+// Structural nodes.
+// verif:func (*Body).walkChildNodes
+//@ assigns walked, scoped, lastScope
+//@ ensures in(iface(b.Attributes), walked) && in(iface(b.Blocks), walked)
+// verif:func (Attributes).walkChildNodes
+//@ assigns walked, scoped, lastScope
+//@ ensures forall k string :: { has(a, k) } has(a, k) ==> in(iface(a[k]), walked)
+//@ loop 1 invariant forall k string :: { has(a, k) } visited(k) ==> in(iface(a[k]), walked)
+// verif:func (Blocks).walkChildNodes
+//@ assigns walked, scoped, lastScope
+//@ ensures forall j int :: { bs[j] } 0 <= j && j < len(bs) ==> in(iface(bs[j]), walked)
+//@ loop 1 invariant forall j int :: { bs[j] } 0 <= j && j <= rangeindex ==> in(iface(bs[j]), walked)
+// verif:func (*Block).walkChildNodes
+//@ assigns walked, scoped, lastScope
+//@ ensures in(iface(b.Body), walked)
